@@ -264,8 +264,11 @@ func checkWindow(c *Check, w *World, tb *TB, iv *IV, pfx string, wi *windowInfo,
 	// --- .5 accept guard -------------------------------------------------------------------------
 	nTrue := 0
 	for i, r := range Returns(f) {
-		k, ok := r.Results[0].(*ssa.Const)
-		if !ok || k.Value == nil || k.Value.String() != "true" {
+		if len(r.Results) == 0 {
+			continue
+		}
+		rt := tb.Of(r.Results[0]).String()
+		if rt != "const(true)" && rt != "call(syscall/js.ValueOf; const(true))" {
 			continue
 		}
 		nTrue++
